@@ -89,6 +89,9 @@ def run_registry(acc, srv, key, target_pairs, star=False):
     for d in regd:
         if d in rw.tokens and d not in hot:
             hot.append(d)    # a native denom spelled exactly like a live cw20 address
+    mixed = [d for d in regd if d.lower() != d and d not in hot]
+    if mixed:
+        hot.append(rng.choice(mixed))   # denoms are case-sensitive: re-register one with upper-case letters too
     if star:
         hot = hot[:1]
     step = 0
